@@ -219,6 +219,22 @@ def directed_probes():
         if got != "plotly" or get_config() != dict(plot_backend=cur):
             fails.append(dict(case=dict(program=f"directed: decorated function called with the configuration {cur!r}", plotly_available=True),
                               clauses=[f"inside {got!r} (expected 'plotly'); afterwards {get_config()} (expected {cur!r})"]))
+    # the decorator on a recursive function: the same context-manager object is entered again while it is active
+    reset("matplotlib")
+
+    @config_context(plot_backend="plotly")
+    def rec(n):
+        inside = [get_config()["plot_backend"]]
+        if n > 0:
+            inside += rec(n - 1)
+            inside.append(get_config()["plot_backend"])
+        return inside
+    for depth in (1, 2):
+        set_config(plot_backend="matplotlib")
+        seen = rec(depth)
+        if set(seen) != {"plotly"} or get_config() != dict(plot_backend="matplotlib"):
+            fails.append(dict(case=dict(program=f"directed: decorated recursive function, depth {depth}, configuration 'matplotlib' outside", plotly_available=True),
+                              clauses=[f"inside {seen} (expected 'plotly' throughout); afterwards {get_config()} (expected 'matplotlib')"]))
     return fails
 
 
